@@ -431,7 +431,13 @@ func runLocalRoundOnce(c *Ctx, round int, g c12Cfg, reqs []c12Req, ovrs []*c12Ov
 		}
 		switch {
 		case refused && !refusedExpected:
-			msg, _ := os.ReadFile(smd.MetadataFilePath(core.Errors))
+			var msg []byte
+			for t := 0; t < 200 && len(msg) == 0; t++ {
+				msg, _ = os.ReadFile(smd.MetadataFilePath(core.Errors))
+				if len(msg) == 0 {
+					time.Sleep(2 * time.Millisecond)
+				}
+			}
 			bad = "C12:local:job-refused|job " + strconv.Itoa(j.id) + " running alone was refused: " + strings.TrimSpace(string(msg))
 		case !started && !refused:
 			bad = "C12:local:stall|job " + strconv.Itoa(j.id) + " running alone neither started nor was refused"
